@@ -39,7 +39,7 @@ type RunRec struct {
 	Retries int      `json:"retries"`
 	Errors  []string `json:"errors"` // anything unexpected (commit did not converge, reopen failed, ...)
 	Kind    string   `json:"kind"`
-	Cold    []string `json:"cold"` // final content read by a brand-new storage from the registers alone
+	Cold    []string `json:"cold"`  // final content read by a brand-new storage from the registers alone
 	WarmC   []string `json:"warmc"` // content read through the live storage right after every successful commit ...
 	ColdC   []string `json:"coldc"` // ... and by a brand-new storage over a copy of the ledger at the same moments
 }
